@@ -290,7 +290,7 @@ def run(ctx):
 
 
 META = {
-    "ready": False,
+    "ready": True,
     "category": "proof",
     "technique": "Rocq invariant proofs (sender programs x reservation-queue mailbox, stash list) + gate-released op sequences on real actors compared with the model + schedule enumeration + concurrent senders on real actors",
     "text": "Per-sender FIFO proved for any number of senders and any interleaving over the reservation-queue mailbox that the FIFO mailboxes refine (C04), and for the per-sender sub-queues of the fair mailbox; stash/unstash order by a list model. Real actors with every FIFO mailbox run generated op sequences (compared with the Coq model by vm_compute) and concurrent senders using Tell/BatchTell/PID.Tell/PID.BatchTell with stash phases; sender threads are also enumerated over yield points in the real mailbox code.",
